@@ -4,6 +4,7 @@ package admin
 
 import (
 	"encoding/base64"
+	"errors"
 	"net/http"
 	"net/url"
 
@@ -233,4 +234,62 @@ func VerifC15HeaderValidation() {
 	}
 	vrt.Observe("valid", err == nil)
 	vrt.Assert("C15.headers.valid-iff-rfc7230-token-and-field-value", (err == nil) == (okName && okValue))
+}
+
+// a store whose batch enqueue may be refused; an id refused as "exists" is then visible to lookups (another request won the race)
+type hRacyPubStore struct {
+	queue.Store
+	outcome  int // 0 accepted, 1 ErrEnvelopeExists, 2 ErrQueueFull, 3 other error
+	attempts int
+	accepted int
+	lookups  int
+}
+
+func (s *hRacyPubStore) EnqueueBatch(items []queue.Envelope) (int, error) {
+	s.attempts++
+	switch s.outcome {
+	case 1:
+		return 0, queue.ErrEnvelopeExists
+	case 2:
+		return 0, queue.ErrQueueFull
+	case 3:
+		return 0, errors.New("disk full")
+	}
+	s.accepted += len(items)
+	return len(items), nil
+}
+func (s *hRacyPubStore) Enqueue(env queue.Envelope) error {
+	_, err := s.EnqueueBatch([]queue.Envelope{env})
+	return err
+}
+func (s *hRacyPubStore) LookupMessages(req queue.MessageLookupRequest) (queue.MessageLookupResponse, error) {
+	s.lookups++
+	var out queue.MessageLookupResponse
+	if s.attempts > 0 && s.outcome == 1 {
+		// after the refused insert the winner's row is there
+		out.Items = append(out.Items, queue.MessageLookupItem{ID: "a", Route: "/ok", State: queue.StateQueued})
+	}
+	return out, nil
+}
+
+// verif:harness props=C01,C15 tier=quick weight=15
+// verif:bounds POST /messages/publish and the endpoint-less global path with 2 acceptable items; the store's batch insert is accepted or refused (id exists because a concurrent publish won the race after the duplicate pre-check, queue full, other error) and lookups after a refused insert see the winner's row: the answer is 200 only if the store accepted the whole batch — a refused batch is never acknowledged
+func VerifC01PublishAcknowledgesOnlyWhatTheStoreAccepted() {
+	st := &hRacyPubStore{outcome: vrt.Choose("store-answer", 4)}
+	s := hPublishServer(st)
+	items := []messagesPublishItem{hPublishItem(pkOK, 0), hPublishItem(pkOK, 1)}
+	vrt.Replace(decodeJSONBodyStrict, func(r *http.Request, dst any) error {
+		dst.(*messagesPublishRequest).Items = items
+		return nil
+	})
+	r := &http.Request{Method: "POST", URL: &url.URL{Path: "/messages/publish"}, Header: http.Header{}, Body: http.NoBody}
+	r.Header.Set("X-Hookaido-Audit-Reason", "ticket-1")
+	w := &hRW{}
+	s.ServeHTTP(w, r)
+	acknowledged := w.status == 200 || w.status == 0
+	vrt.Assert("C01.publish.acknowledged-only-if-the-store-accepted-the-whole-batch", !acknowledged || st.accepted == 2)
+	vrt.Assert("C15.publish.accepted-batch-is-acknowledged", st.outcome != 0 || acknowledged)
+	if st.outcome != 0 {
+		vrt.Assert("C15.publish.refused-batch-has-an-error-status", w.status == 409 || w.status == 503 || w.status == 500)
+	}
 }
